@@ -154,6 +154,10 @@ STEP = VF.FunctionContract(
     raise_posts={
         "only-nested-fence": lambda a, exc: S.And(a.old.in_fence, _m(a), S.length(_g(a, 3)) >= S.length(_marker_str(a)), S.Not(_closes(_g(a, 3), _marker_str(a), _g(a, 4)))),
     },
+    replay_hints=[
+        dict(current_fence_marker="````", current_info_tag=None, fence_spans=[], in_fence=True, open_line=1, output_offset=5, output_parts=[], span_start=0, line=ln, line_num=2)
+        for ln in ("```cafe\u0301", "cafe\u0301", "  ```py e\u0301", "\te\u0301 ", "`````x")
+    ] + [dict(current_fence_marker=None, current_info_tag=None, fence_spans=[], in_fence=False, open_line=-1, output_offset=0, output_parts=[], span_start=-1, line=ln, line_num=1) for ln in ("cafe\u0301", "```e\u0301", "K::v")],
     covers={
         "inside": lambda a, r: S.And(a.old.in_fence, _ret(r, "in_fence")),
         "close": lambda a, r: S.And(a.old.in_fence, S.Not(_ret(r, "in_fence"))),
